@@ -90,13 +90,64 @@ def edge_table(faces):
     return np.array(sorted(es), dtype=hux.consts()[0])
 
 
+STRIP_CENTRES = [(0, 0), (180, 0), (0, 90), (0, -90), (90, 45), (-135, -30), (179, 10), (-60, 70), (30, -85), (120, 0)]
+
+
+def strip_faces(sizes):
+    """The face table of EncodeRel!StripMesh (re-derived here only to attach coordinates; the check
+    compares it with the table TLC generated) plus, per node, (chain, abscissa)."""
+    faces, where = [], {0: ("b", 0.0), 1: ("t", 0.0)}
+    bl, tl, nxt = 0, 1, 2
+    for k, n in enumerate(sizes):
+        b = (n + 1) // 2
+        t = n - b
+        bot = [bl] + [nxt + j for j in range(b - 1)]
+        tops = [nxt + (b - 1) + j for j in range(t - 1)]
+        for j, v in enumerate(bot[1:], 1):
+            where[v] = ("b", k + j / (b - 1))
+        for j, v in enumerate(tops, 1):
+            where[v] = ("t", k + j / (t - 1))
+        faces.append(bot + tops[::-1] + [tl])
+        bl = bot[-1]
+        tl = tops[-1] if t > 1 else tl
+        nxt += n - 2
+    return faces, where
+
+
+def strip_entry(sizes, rng):
+    """Coordinates for a strip mesh: all nodes lie on the boundary of a lens (bottom chain on a convex,
+    top chain on a concave parabola in lon/lat), so every face is strictly convex and counter-clockwise;
+    the patch is then moved to one of a few places on the sphere (poles, antimeridian, ...)."""
+    faces, where = strip_faces(sizes)
+    F = len(sizes)
+    W = min(50.0, 14.0 * F)
+    a = 3.0 / (W / 2) ** 2
+    lon0, lat0 = STRIP_CENTRES[rng.randrange(len(STRIP_CENTRES))]
+    cl, sl = math.cos(math.radians(lat0)), math.sin(math.radians(lat0))
+    co, so = math.cos(math.radians(lon0)), math.sin(math.radians(lon0))
+    xyz = []
+    for v in range(len(where)):
+        chain, u = where[v]
+        x = -W / 2 + W * u / F
+        y = (-8.0 + a * x * x) if chain == "b" else (8.0 - a * x * x)
+        px, py, pz = lattice.xyz_of_lonlat_deg(x, y)
+        # rotate about y by -lat0 (lifts the centre to latitude lat0), then about z by lon0
+        qx, qy, qz = cl * px - sl * pz, py, sl * px + cl * pz
+        xyz.append((co * qx - so * qy, so * qx + co * qy, qz))
+    return {"xyz": xyz, "faces": faces, "name": "strip%s@%d,%d" % ("-".join(map(str, sizes)), lon0, lat0)}
+
+
 def entry_lonlat(entry):
+    if "xyz" in entry:
+        return [(math.degrees(math.atan2(y, x)) if (x * x + y * y) > 1e-30 else 0.0, math.degrees(math.atan2(z, math.hypot(x, y)))) for x, y, z in entry["xyz"]]
     if "lonlat" in entry:
         return [tuple(p) for p in entry["lonlat"]]
     return [lattice.lonlat_deg(v) for v in entry["nodes"]]
 
 
 def entry_xyz(entry):
+    if "xyz" in entry:
+        return [tuple(p) for p in entry["xyz"]]
     if "lonlat" in entry:
         return [lattice.xyz_of_lonlat_deg(lo, la) for lo, la in entry["lonlat"]]
     return [lattice.unit(v) for v in entry["nodes"]]
